@@ -232,6 +232,10 @@ payload_plausible(RPFrame *f)
 {
     size_t actualsize = f->payload.size;
     if (BIT_ISSET(f->header.options, RP_OPT_WORD_SIZE_16)) {
+        if (actualsize % 2 != 0) {
+            /* Half a word cannot be part of any block of 16 bit words. */
+            return -EFAULT;
+        }
         actualsize /= 2;
     }
     switch (f->header.type) {
